@@ -930,6 +930,84 @@ def realize_few_epochs(case):
     return out
 
 
+def realize_illcond(case):
+    """off the lattice, the opposite corner: MANY epochs on a long baseline with small errors and wide trend priors, so that
+    B = C + M Lambda M^T has a condition number of 1e10..1e18.  Reference: exact rational arithmetic on the float inputs."""
+    import random as _random
+    import time as _time
+    import astropy.units as u
+    from thejoker import JokerSamples, TheJoker
+    from . import gauss_oracle as go
+    rnd = _random.Random(case["seed"])
+    c = random_real_config(rnd)
+    poly = rnd.choice([2, 3, 3])
+    N = rnd.randint(10, 20)
+    base = rnd.choice([1500.0, 3000.0])
+    t = sorted(rnd.uniform(0, base) for _ in range(N))
+    sig = rnd.choice([0.001, 0.01, 0.05])
+    var = [100.0 ** 2, 1.0 ** 2, rnd.choice([0.1, 1.0]) ** 2][:poly]
+    c.update(t=t, lab=[0] * N, y=[rnd.gauss(0, 3.0) for _ in range(N)], sig2=[sig ** 2] * N, s2=0.0, poly=poly, noff=0, mu=[0.0] * poly,
+             var=var, tref_off=False, tref_min=True, kkind="default", muK=0.0)
+    ua = random_units(rnd, 1 + poly)
+    ua.update(data="km/s", kprior="km/s", lin=["km/s"] * poly, slope_t="d", builder="explicit")
+    out = {"id": case["id"], "seed": case["seed"], "c": {k: (v if not isinstance(v, list) or len(v) <= 12 else v[:12]) for k, v in c.items()},
+           "ok": False}
+    try:
+        data, prior, smp, slot_names, shift = build_real(c, ua)
+        R = 4
+        Ps = [math.exp(rnd.uniform(math.log(5.0), math.log(400.0))) for _ in range(R)]
+        es = [rnd.uniform(0, 0.6) for _ in range(R)]
+        oms = [rnd.uniform(0, 2 * math.pi) for _ in range(R)]
+        M0s = [rnd.uniform(0, 2 * math.pi) for _ in range(R)]
+        rows = JokerSamples(poly_trend=poly, n_offsets=0)
+        rows["P"] = (np.array(Ps) * u.day).to(smp["P"].unit)
+        rows["e"] = np.array(es)
+        rows["omega"] = (np.array(oms) * u.rad).to(smp["omega"].unit)
+        rows["M0"] = (np.array(M0s) * u.rad).to(smp["M0"].unit)
+        rows["s"] = np.repeat(smp["s"], R) * 0
+        joker = TheJoker(prior, rng=np.random.default_rng(case["seed"]))
+        with np.errstate(all="ignore"):
+            ll = np.asarray(joker.marginal_ln_likelihood(data, rows, in_memory=True), dtype=float)
+        dev, cond, absdev = 0.0, 0.0, 0.0
+        for k in range(R):
+            c2 = dict(c)
+            c2["t"] = [x - shift for x in c["t"]]
+            c2.update(P=Ps[k], e=es[k], omega=oms[k], M0=(M0s[k] - 2 * np.pi * shift / Ps[k]))
+            want = go.ln_marginal_exact(c2)
+            cond = max(cond, float(np.linalg.cond(go.B(c2))))
+            d = abs(ll[k] - want) if np.isfinite(ll[k]) else 1e300
+            absdev = max(absdev, d)
+            dev = max(dev, d / max(1.0, abs(want)))
+        out.update(dev_ll=float(dev), abs_dev_ll=float(absdev), cond_B=float(cond), ok=True)
+    except Exception as ex:
+        out["exc"] = "%s: %s" % (type(ex).__name__, str(ex)[:200])
+    return out
+
+
+def offlattice_illcond(ctx, family, n):
+    """the ill-conditioned corner is an OPEN FINDING (known_findings.json KF_IllConditionedB): a deviation is reported as that finding
+    only when the condition number of B is beyond 1e8 - a deviation on a well-conditioned problem is a violation like any other"""
+    from . import core
+    res = core.pmap(realize_illcond, [{"id": "cond-%s-%d" % (family, i), "seed": ctx.seed * 100000 + 17 * i + 9} for i in range(n)], chunksize=1)
+    hits, worst_abs, worst_cond = 0, 0.0, 0.0
+    for r in res:
+        ctx.count()
+        if not r["ok"]:
+            ctx.fail("%s.OffLatticeProblemRaises" % family, r)
+            continue
+        worst_cond = max(worst_cond, r["cond_B"])
+        if not (r["dev_ll"] <= OFF_TOL):
+            kf = "KF_IllConditionedB" if r["cond_B"] > 1e8 else None
+            if ctx.fail("%s.OffLatticeValueIsLnNormalOfTheSpecifiedGaussian" % family, r, kf=kf,
+                        detail={"dev_ll": r["dev_ll"], "abs_dev_ll": r["abs_dev_ll"], "cond_B": r["cond_B"]}) == "known":
+                hits += 1
+                worst_abs = max(worst_abs, r["abs_dev_ll"])
+        ctx.nontrivial(("cond", r["seed"]))
+    ctx.notes["ill_conditioned_problems"] = {"run": len(res), "beyond_round_off (the open finding)": hits, "largest_absolute_error_in_lnL": worst_abs,
+                                             "largest_condition_number_of_B": worst_cond}
+    return res
+
+
 def offlattice_few_epochs(ctx, family, n):
     from . import core
     res = core.pmap(realize_few_epochs, [{"id": "few-%s-%d" % (family, i), "seed": ctx.seed * 100000 + 11 * i + 3} for i in range(n)], chunksize=4)
